@@ -287,10 +287,12 @@ where
                 });
             }
         }
-        if matches!(act, Act::Ok) {
-            for (lane, t) in target.iter_mut().enumerate() {
-                *t = enc(xb, 0, lane);
-            }
+        // a failing strategy has typically written part of its target already (lane-by-lane
+        // evaluation that meets a gap): on a planned error or panic the first half of the lanes is
+        // written before failing
+        let n_write = if matches!(act, Act::Ok) { usize::MAX } else { (target.len() + 1) / 2 };
+        for (lane, t) in target.iter_mut().enumerate().take(n_write) {
+            *t = enc(xb, 0, lane);
         }
         finish_callback(act)
     }
@@ -399,10 +401,9 @@ where
                 });
             }
         }
-        if matches!(act, Act::Ok) {
-            for (lane, t) in target.iter_mut().enumerate() {
-                *t = enc(xb, yb, lane);
-            }
+        let n_write = if matches!(act, Act::Ok) { usize::MAX } else { (target.len() + 1) / 2 };
+        for (lane, t) in target.iter_mut().enumerate().take(n_write) {
+            *t = enc(xb, yb, lane);
         }
         finish_callback(act)
     }
